@@ -193,8 +193,8 @@ func (p *PHYPayload) EncodeJoinRequest(appKey AESKey) ([]byte, error) {
 	}
 
 	count := 0
-	// JoinRequest is 1 (MHDR) + 18 (JoinRequest) + 5 (MIC) = 24 bytes
-	buf := make([]byte, 24)
+	// JoinRequest is 1 (MHDR) + 18 (JoinRequest) + 4 (MIC) = 23 bytes
+	buf := make([]byte, 23)
 
 	if err := p.MHDR.encode(buf, &count); err != nil {
 		return nil, err
@@ -202,8 +202,9 @@ func (p *PHYPayload) EncodeJoinRequest(appKey AESKey) ([]byte, error) {
 	if err := p.JoinRequestPayload.encode(buf, &count); err != nil {
 		return nil, err
 	}
+	// The MIC covers MHDR | AppEUI | DevEUI | DevNonce [6.2.4]
 	var err error
-	if p.MIC, err = p.CalculateJoinRequestMIC(appKey, buf); err != nil {
+	if p.MIC, err = p.CalculateJoinRequestMIC(appKey, buf[0:count]); err != nil {
 		return nil, err
 	}
 
